@@ -32,9 +32,9 @@ def _alphabet(params):
     return out
 
 
-def run_state(params, regs_ops, flavour='adapter'):
-    """Build a real registry chain holding the given registrations, then compare every
-    lookup with the declarative rank oracle."""
+def run_state(params, regs_ops, flavour='adapter', removed=()):
+    """Build a real registry chain holding the given registrations (optionally unregistering some of them again),
+    then compare every lookup with the declarative rank oracle."""
     u = M.RegUniverse(flavour=flavour, nregs=params.get('nregs', 2))
     model = M.Model(len(u.regs))
     pool = u.req_pool()
@@ -43,6 +43,11 @@ def run_state(params, regs_ops, flavour='adapter'):
         v = u.val('v%d' % k)
         u.regs[ri].register(required, u.P[pi], name, v)
         model.register(ri, required, u.P[pi], name, v)
+    for k in removed:
+        (ri, req, pi, name) = regs_ops[k]
+        required = [pool[q] for q in req]
+        u.regs[ri].unregister(required, u.P[pi], name)
+        model.unregister(ri, required, u.P[pi], name)
     lpool = u.lookup_pool()
     lidx = params.get('lookup_idx') or list(range(len(lpool)))
     arities = sorted(set(len(op[1]) for op in regs_ops)) or [1]
@@ -78,7 +83,7 @@ def run_state(params, regs_ops, flavour='adapter'):
     # registered() reads back exactly what was registered
     for k, (ri, req, pi, name) in enumerate(regs_ops):
         required = [pool[q] for q in req]
-        cur = model.adapters[ri][M.Model._k(required, u.P[pi], name)][3]
+        cur = model.adapters[ri].get(M.Model._k(required, u.P[pi], name), (None, None, None, None))[3]
         if u.regs[ri].registered(required, u.P[pi], name) is not cur:
             raise Violation('registered() does not return the live value for %r' % (regs_ops[k],), signature='C04:registered')
 
@@ -94,7 +99,7 @@ def make_e_lookup(params, part, nparts):
     flavour = params.get('flavour', 'adapter')
     NA = len(alpha)
 
-    def h(n: int, o1: int, o2: int, o3: int):
+    def h(n: int, o1: int, o2: int, o3: int, rm: int):
         c1 = pick(o1, NA)
         assume(c1 % nparts == part)
         ln = pick(n, L) + 1   # 1..L registrations
@@ -106,8 +111,13 @@ def make_e_lookup(params, part, nparts):
             idx.append(c)
         ops = tuple(alpha[i] for i in idx)
         # same key registered twice would overwrite: distinct keys by construction (c strictly increasing)
-        reached(tuple(idx), dict(registrations=[list(map(str, op)) for op in ops]))
-        native(run_state, params, ops, flavour)
+        removed = ()
+        if params.get('remove'):
+            # registry contents are also what is left after unregistering: every non-empty subset is taken out again
+            mask = pick(rm, (1 << ln) - 1) + 1
+            removed = tuple(k for k in range(ln) if mask >> k & 1)
+        reached(tuple(idx) + (removed,), dict(registrations=[list(map(str, op)) for op in ops], unregistered_again=list(removed)))
+        native(run_state, params, ops, flavour, removed)
     return h
 
 
@@ -368,6 +378,8 @@ _Q1 = dict(nregs=2, L=2, req1=[0, 1, 2, 3, 5], provs=[0, 1, 2, 3], names=['', 'n
 _Q1b = dict(nregs=2, L=3, req1=[0, 1, 3, 5], provs=[0, 1, 3], names=[''], arity0=False, minlen=3)
 _Q2 = dict(nregs=2, L=2, req1=[], provs=[0, 1], names=[''], arity0=True, arity2=True, req2=[0, 1, 2, 3],
            lookup_idx=[0, 1, 3, 4, 6], lookup_names=('',))
+_QR = dict(nregs=1, L=3, req1=[0, 1, 3], provs=[0, 1], names=[''], arity0=True, arity2=True, req2=[0, 1], lookup_idx=[0, 1, 3],
+           lookup_names=('',), remove=True, minlen=2)
 _T1 = dict(nregs=2, L=3, req1=[0, 1, 2, 3, 4, 5], provs=[0, 1, 2, 3], names=['', 'n'], arity0=True)
 _T2 = dict(nregs=2, L=3, req1=[], provs=[0, 1], names=[''], arity0=False, arity2=True, req2=[0, 1, 2, 3],
            lookup_idx=[0, 1, 3, 4, 6], lookup_names=('',))
@@ -394,6 +406,14 @@ HARNESSES = [
             encoded=_ENC,
             bounds='as above with arity-2 (and arity-0) registrations: every set of <=2 (thorough 3) over required pairs {None,R0,R1,R2}^2',
             oracle='as e_lookup_a1'),
+    Harness('e_lookup_removed', make_e_lookup, kind='E', impls=('py', 'c'),
+            tiers=dict(quick=dict(budget_s=100, parts=8, params=_QR),
+                       thorough=dict(budget_s=900, parts=16, params=dict(_QR, nregs=2, req2=[0, 1, 2]))),
+            encoded=_ENC + ['zope.interface.adapter:BaseAdapterRegistry.unregister'],
+            bounds='one registry holding registrations of arity 0, 1 and 2 together: every set of 2..3 registrations over required {None,R0,R1} / '
+                   'pairs {None,R0}^2 x provided {P0,P1}, then every non-empty subset of them unregistered again; every lookup key of every arity',
+            outside='more than 3 registrations; subscriptions (C07/C09)',
+            oracle='as e_lookup_a1, over the registrations that are left'),
     Harness('s_lookup1', make_s_lookup1, kind='S', impls=('py',),
             tiers=dict(quick=dict(budget_s=90, parts=9, ppt=40, params=dict(keys=2, sro=3)),
                        thorough=dict(budget_s=1200, parts=12, ppt=60, params=dict(keys=3, sro=3))),
